@@ -77,6 +77,27 @@ def _ctx(extra=0):
     return decimal.Context(prec=PREC + extra, Emax=10**9, Emin=-10**9, traps=_TRAPS)
 
 
+class precision:
+    """with precision(240): ... -- the decimal domain works with that many digits
+    (used when 60 digits cannot settle a comparison: a derivative expression whose
+    terms cancel exactly, scaled by something like exp(130), is still rounding
+    noise at 60 digits)."""
+
+    def __init__(self, digits):
+        self.digits = digits
+
+    def __enter__(self):
+        global PREC
+        self.old = PREC
+        PREC = self.digits
+        _CTX.prec = self.digits
+
+    def __exit__(self, *exc):
+        global PREC
+        PREC = self.old
+        _CTX.prec = self.old
+
+
 def _dec(x):
     if isinstance(x, HP):
         return x.x
